@@ -1,7 +1,93 @@
-TECH = "bounded symbolic execution of the real Rust code with Kani/CBMC (SAT, CaDiCaL); solver verdict over all symbolic inputs within stated bounds; counterexamples replayed natively"
+"""Per-property texts for MANIFEST.json (level claimed, trusted base, technique).  A property appears in MANIFEST.checks
+only if it has a plan AND a text here; everything else is listed under not_applicable by gen_manifest.py."""
+
+TECH = ("bounded symbolic execution of the real Rust code with Kani 0.68 / CBMC 6.11 (SAT back end CaDiCaL): inputs, keys, "
+        "states, lengths symbolic; solver verdict over all values within the stated bounds; non-linear leaves as shared "
+        "uninterpreted functions (Ackermann) where the direct query is out of reach, tied down by leaf lemmas over the "
+        "leaf's full input space; counterexamples replayed natively against a copy of the real crate before reporting")
+
+BASE = ("Trusted: Kani's MIR->GOTO translation, CBMC, CaDiCaL; the oracles in /verif/refmodels (validated natively against all "
+        "of the repository's vectors: 0 mismatches) and the constant tables they carry; the counted shadow transformations "
+        "listed in the evidence; sequential MIR-level semantics (no threads, no optimiser).")
+
+# Properties whose registered check has been run green, end to end, on the unchanged tree by the main session.
+# gen_manifest.py lists every other property under not_applicable ("under construction") even if harnesses exist.
+CLAIMED = ["C13"]
+
 MANIFEST_TEXT = {
+    "C01": dict(
+        level="Round trips dec(enc(b))==b and enc(dec(b))==b decided per cipher type over all blocks and either all keys (public constructor, D queries: DES, Magma/Gost89 sets, XTEA, Speck, GIFT, RC5 instantiations, ...) or all expanded-key states, a superset of all keys (W queries with the round leaf uninterpreted: SM4, Camellia, Twofish, CAST-256, BelT, TDES, Threefish, ...; SPN ciphers through uninterpreted bijection pairs or through conformance of both directions to one oracle).  BelT wide block per length in a stated range.  Bounded model checking: complete over the fixed-width inputs, bounded in wide-block length and in the list of RC5/Speck/Threefish instantiations.",
+        note=BASE + " W queries additionally rely on: any function as Feistel leaf (no lemma needed) or the leaf-inverse lemma proved as its own query.",
+        technique=TECH),
+    "C02": dict(
+        level="AES-128/192/256 (combined, Enc, Dec types) == FIPS-197 for all keys and all blocks, per backend: x86 autodetect->AES-NI arm (W: real key expansion sequences, inverse keys, round sequencing, loads/stores; the unkeyed round bodies of AESENC/AESENCLAST/AESDEC/AESDECLAST, AESIMC and the key-schedule S-box are uninterpreted functions shared with the oracle, whose concrete meaning is the Intel SDM definition); fixslice64/32 normal and compact (leaf lemmas for the bitsliced S-box circuits, linear layers and packing + wiring with the byte S-box uninterpreted); ARMv8 (software model of the intrinsics).  Decryption is compared with FIPS-197's equivalent inverse cipher (5.3.5), tied to InvCipher by oracle lemmas.",
+        note=BASE + " Intrinsic models (AES-NI from the Intel SDM, validated natively against the real instructions of this host; ARMv8 from the Arm ARM, not validated on hardware); 32-bit and aarch64 sources are compiled for the x86-64 host from shadow copies.",
+        technique=TECH),
+    "C03": dict(
+        level="Backend/cfg independence by transitivity: every configuration (autodetect->NI, fixslice64, fixslice64 compact, fixslice32, fixslice32 compact, ARMv8 model; Kuznyechik backends; Serpent unrolled/looped) is decided to conform to the same oracle over all keys and blocks, hence they agree pairwise; hazmat dispatchers are decided with CPUID symbolic (both arms in one query).",
+        note=BASE + " Configuration matrix is the list of shadow variants in the evidence; configurations that do not exist in the source are outside the claim.",
+        technique=TECH),
+    "C04": dict(
+        level="For every cipher type: multi-block in-place, multi-block b2b and single b2b calls equal per-block in-place calls on an arbitrary state for every block count n in 0..=2 (parallel width 1) — all contents symbolic, separate input unchanged, output blocks >= n and mismatched-length outputs untouched.  AES-NI 9-wide path: n = 10 (batch + tail; thorough: 8, 9, 19) at a symbolic buffer offset 0..15 with guard bytes; fixslice and Kuznyechik/ARMv8 parallel paths per their harness lists.",
+        note=BASE + " Block counts are enumerated (bounded), contents are universal; counts above the bound are outside the claim (the iteration code is periodic in the parallel width).",
+        technique=TECH),
+    "C05": dict(
+        level="Des == FIPS 46-3 for all 2^64 keys x 2^64 blocks: leaf lemmas for IP/FP, the round function (E, S-boxes, P) and the key schedule (PC1, rotations, PC2) against bit-table oracles over their full input spaces + wiring of Des::new/encrypt/decrypt with f uninterpreted; thorough tier adds the direct query with nothing abstracted.  TDES EDE3/EDE2/EEE3/EEE2 == SP 800-67 compositions with single DES uninterpreted per key part; key relations (equal parts = DES, parity bits ignored, complementation) as separate queries.",
+        note=BASE + " DES S-box tables of the oracle typed from FIPS 46-3 (validated on 2700 vectors).",
+        technique=TECH),
+    "C06": dict(
+        level="ARIA-128/192/256 == RFC 5794, Camellia-128/192/256 == RFC 3713, SM4 == GB/T 32907 for all keys and blocks, both directions: leaf lemmas (S-box layers, diffusion, F/FL/FLINV, T/T') over the leaves' full input spaces + wiring of the real key schedules and round loops with the leaves uninterpreted on both sides.",
+        note=BASE, technique=TECH),
+    "C07": dict(
+        level="Kuznyechik (default backend; others per C03), Magma and Gost89 over the six bundled and two user-defined S-box sets, BeltBlock/belt_block_raw == their standards for all keys and blocks; gen_exp_sbox decided for every 8x16 nibble table (symbolic table).",
+        note=BASE + " 'Any user Sbox impl' is bounded to the symbolic-table lemma plus 8 concrete types.",
+        technique=TECH),
+    "C08": dict(
+        level="Serpent (key length symbolic 16..=32, both unroll variants), Twofish (16/24/32) and CAST-256 (five key sizes) == their specifications for all keys and blocks: leaf lemmas (bitsliced S-box circuits, linear transform, q-boxes/MDS/RS/h/g, quads/octave) + wiring with the leaves uninterpreted.",
+        note=BASE, technique=TECH),
+    "C09": dict(
+        level="Blowfish/BlowfishLE, CAST5, IDEA, RC2, XTEA == their specifications: round functions on arbitrary states (D), key schedules vs oracle (Blowfish with the inner encrypt uninterpreted per call index, key length symbolic 4..=56; RC2 key and effective lengths symbolic within the tier bound; CAST5 per stated split), leaf lemmas for IDEA multiplication modulo 65537.",
+        note=BASE + " Blowfish's 521 chained self-modifying encryptions are decided under the call-indexed abstraction (DESIGN 2.3).",
+        technique=TECH),
+    "C10": dict(
+        level="RC5 (listed W/R/B instantiations), the ten Speck variants, Threefish-256/512/1024 (tweak, byte vs u64 entry points, zero-tweak constructor) and GIFT-128 == their specifications for all keys and blocks, by D queries where they finish and L+W otherwise.",
+        note=BASE + " RC5 admits 5 x 256 x 256 type-level instantiations; a listed dozen are checked.",
+        technique=TECH),
+    "C11": dict(
+        level="For every cipher type new_from_slice(&buf[..len]) with buf (300 bytes) and len (0..=300) symbolic is Ok exactly for the accepted lengths and Err otherwise without panicking; new(&key) and new_from_slice(&key) give the same state; padded/short-key and Rc2 effective-length constructor pairs by state equality.",
+        note=BASE + " Lengths above 300 take the same comparison (usize compare) and are not explored; Blowfish/CAST5 key schedules are stubbed out in the verdict-only harnesses.",
+        technique=TECH),
+    "C12": dict(
+        level="AES (NI arm; soft; ARMv8 model) and Kuznyechik: combined/Enc/Dec instances obtained by new, From<Enc>, From<&Enc>, clone and clone-of-converted are each decided to compute FIPS-197 / GOST for all keys and blocks (same wiring queries as C02/C07 run through the conversion chains), hence agree with a freshly keyed combined cipher.",
+        note=BASE, technique=TECH),
     "C13": dict(
-        level="Each clause is a solver verdict over the full key width (all 2^64 DES keys, all 2^128/2^192 TDES keys, all AES keys): weak_key_test/new_checked of the real crate vs. the statement's predicate (NIST list modulo parity; upper half zero). Bounded only by fixed key widths, so the verdict covers every key.",
-        note="NIST weak-key list carried by the oracle (validated structurally: odd parity, 4/12/48 keys with 1/2/4 distinct subkeys under the FIPS 46-3 key schedule); Kani/CBMC/CaDiCaL; MIR-level semantics.",
+        level="Each clause is a solver verdict over the full key width (all 2^64 DES keys, all 2^128/2^192 TDES keys, all AES keys, every other type's key size): weak_key_test / new_checked of the real crate vs the statement's predicate (NIST list modulo parity, parts equal modulo parity; upper half zero; never fails).",
+        note=BASE + " NIST weak-key list carried by the oracle, validated structurally (odd parity; 4/12/48 keys with 1/2/4 distinct subkeys).",
+        technique=TECH),
+    "C14": dict(
+        level="bcrypt primitives: each of salted_expand_key, bc_expand_key, bc_encrypt, bc_init_state decided as ONE step from an arbitrary pre-state against the eksblowfish oracle step (salt and key lengths symbolic within bounds, inner encrypt uninterpreted per call index); induction over the step covers call sequences of any length.",
+        note=BASE + " Bounds on salt/key length as stated in the evidence.",
+        technique=TECH),
+    "C15": dict(
+        level="Sequential histories: frame harness per type (encrypt/decrypt on an arbitrary state leave every byte of the instance unchanged) + AES autodetect history harness including the first-use CPU detection; with determinism of symbolic execution this gives history independence for sequential histories of any length.  Thread interleavings are NOT decided (Kani is sequential): threads = 1.",
+        note=BASE + " The 'all thread interleavings' part of the quantifier is outside the technique and stated as such.",
+        technique=TECH),
+    "C16": dict(
+        level="zeroize feature: drop_in_place of an arbitrary-state instance (built in place from symbolic bytes) leaves every byte of its storage zero, for every cipher type; only padding (Cast5) and the dead tail of the AES autodetect unions are exempt, computed from offset_of!/size_of.",
+        note=BASE + " Copies the compiler may leave in registers/stack are outside MIR-level analysis.",
+        technique=TECH),
+    "C17": dict(
+        level="aes::hazmat::{cipher_round, equiv_inv_cipher_round, mix_columns, inv_mix_columns} == FIPS-197 round transformations for all 2^128 blocks x 2^128 keys with CPUID symbolic (intrinsics arm with concrete SDM models, fixslice arm with nothing abstracted); par forms == eight single calls.",
+        note=BASE, technique=TECH),
+    "C18": dict(
+        level="belt_wblock_enc/dec == STB 34.101.31 wide block for every length in the stated range (incl. non-multiples of 16) and all keys/contents with belt_block_raw uninterpreted; inverse both orders; len < 32 returns the error and leaves the buffer unchanged.",
+        note=BASE + " Lengths above the stated bound are outside the claim.",
+        technique=TECH),
+    "C19": dict(
+        level="Per type: Debug on an arbitrary state equals Debug on the zero-bytes instance (so it cannot depend on key material) and starts with the type identifier; AlgorithmName contains the algorithm name and every type-level parameter (key size, variant, byte order, S-box name, RC5 w/r/b).",
+        note=BASE, technique=TECH),
+    "C20": dict(
+        level="Dev-profile obligations (overflow, bounds, unwrap, debug_assert, shift, division) are proof obligations of every harness; per type, encrypt/decrypt on an arbitrary valid state and block are decided to return; leaf arithmetic named by the property is run on fully symbolic inputs; since no overflow check or debug assertion can fire, dev and release profiles compute the same function.",
+        note=BASE + " Allocation/stack exhaustion and anything below MIR are outside.",
         technique=TECH),
 }
